@@ -115,8 +115,8 @@ func convert(v any, pt string) (any, convStatus) {
 			}
 			if decInt.MatchString(x) {
 				n, err := strconv.ParseInt(x, 10, 64)
-				if err != nil || (pt == "uint" && n < 0) {
-					return nil, convUnspecified
+				if err != nil || (pt == "uint" && (x[0] == '-' || x[0] == '+')) {
+					return nil, convUnspecified // a signed text ("-0", "+5") into an unsigned parameter
 				}
 				return numTo(float64(n), n, pt), convOK
 			}
@@ -323,6 +323,12 @@ func init() {
 	reg(&fnSpec{name: "typ", params: []string{"any"},
 		impl: func(v any) string { return fmt.Sprintf("%T", v) },
 		call: func(in []any) (any, error) { return fmt.Sprintf("%T", in[0]), nil }})
+	reg(&fnSpec{name: "kinds", params: []string{"any", "any"},
+		impl: func(v, w any) string { return fmt.Sprintf("%T,%T", v, w) },
+		call: func(in []any) (any, error) { return fmt.Sprintf("%T,%T", in[0], in[1]), nil }})
+	reg(&fnSpec{name: "divide", params: []string{"any", "any"}, accepts: func(v any) bool { return isNumber(v) },
+		impl: divideAny,
+		call: func(in []any) (any, error) { return divideAny(in[0], in[1]), nil }})
 	reg(&fnSpec{name: "show", params: []string{"any", "any"}, accepts: func(v any) bool { return !isPtr(v) }, // a pointer prints as an address
 		impl: func(v, w any) string { return fmt.Sprint(v) + "-" + fmt.Sprint(w) },
 		call: func(in []any) (any, error) { return fmt.Sprint(in[0]) + "-" + fmt.Sprint(in[1]), nil }})
@@ -449,3 +455,31 @@ var (
 	funcMapOnce sync.Once
 	funcMapAll  vuego.FuncMap
 )
+
+// divideAny is type-sensitive like user code often is: two ints divide as integers, anything
+// else as floats (7 / 2 = 3, 7 / 2.0 = 3.5); the divisor is never zero by construction.
+func divideAny(a, b any) string {
+	ai, aok := a.(int)
+	bi, bok := b.(int)
+	if aok && bok {
+		if bi == 0 {
+			return "div0"
+		}
+		return fmt.Sprintf("int:%d", ai/bi)
+	}
+	f := func(v any) float64 {
+		switch x := v.(type) {
+		case int:
+			return float64(x)
+		case int64:
+			return float64(x)
+		case float64:
+			return x
+		}
+		return 0
+	}
+	if f(b) == 0 {
+		return "div0"
+	}
+	return fmt.Sprintf("float:%v", f(a)/f(b))
+}
